@@ -177,6 +177,161 @@ def _c07_case(conc, nmax, preemptions, rerun=False):
     return case
 
 
+ABNORMAL_WF = """
+version: '2.0'
+wf:
+  output:
+    res: <% $.get(res, none) %>
+  tasks:
+    t:
+      with-items: i in [0, 1, 2]
+      concurrency: 2
+@@TIMEOUT@@
+      action: std.echo output=<% $.i %>
+      publish:
+        res: <% task().result %>
+      on-success: after
+    after:
+      action: std.noop
+"""
+
+
+def _c07_abnormal_rerun_case(kind):
+    """the with-items task ends abnormally while items are still in flight -
+    one item is cancelled, or the task's timeout fires - the in-flight
+    results arrive late, then the task is rerun (reset on / off): the second
+    pass must run every item that has no accepted result exactly once and
+    finish SUCCESS with ordered results"""
+    def case():
+        from vt.world import World
+        from vt.explorer import Explorer
+        from mistral_lib import actions as ml
+        sig = 'C07.abnormal:%s' % kind
+        text = ABNORMAL_WF.replace(
+            '@@TIMEOUT@@', '      timeout: 50' if kind == 'timeout' else '')
+        w = World([text])
+        with w:
+            ex = Explorer(w, sig, preemptions=0)
+            ex.rerun_allowed = True
+            ex.result_for = lambda ev: ml.Result(data='never used')
+            wid = w.start('wf')
+            ex.check_invariants()
+
+            def index_of(ev):
+                for a in w.rows('ActionExecution'):
+                    if a['id'] == ev.payload['id']:
+                        return (a['runtime_context'] or {}).get('index')
+
+            def drain(hold_actions, skip_timer=True):
+                for _ in range(80):
+                    evs = [e for e in w.events
+                           if not (hold_actions and e.kind == 'action')
+                           and not (skip_timer and e.kind == 'job' and
+                                    'fail_task_if_incomplete' in e.label)]
+                    if not evs:
+                        return
+                    ev = evs[0]
+                    ex.deliver(ev, ml.Result(data='r%s' % index_of(ev))
+                               if ev.kind == 'action' else None)
+            drain(True)
+            acts = [e for e in w.events if e.kind == 'action']
+            assume(len(acts) == 2)
+            t = w.task('t', wid)
+            if kind == 'cancel-item':
+                victim = choice('cancelled_item', [0, 1])
+                ev = [e for e in acts if index_of(e) == victim][0]
+                ex.deliver(ev, ml.Result(error='cancelled', cancel=True))
+                drain(True)
+                t = w.task('t', wid)
+                assume(t['state'] == 'CANCELLED')
+            else:
+                timer = [e for e in w.events if e.kind == 'job' and
+                         'fail_task_if_incomplete' in e.label]
+                assume(len(timer) == 1)
+                ex.deliver(timer[0])
+                drain(True)
+                t = w.task('t', wid)
+                assume(t['state'] == 'ERROR')
+            reach('ended-with-items-in-flight')
+            # the results of the items still in flight arrive late
+            # ... before the rerun, or only after it (then the second pass
+            # finds them still in progress)
+            late = choice('late_results', ['before-rerun', 'after-rerun'])
+            if late == 'before-rerun':
+                drain(False)
+            first_accepted = sorted(
+                a['runtime_context']['index'] for a in w.actions(t['id'])
+                if a['accepted'] and a['state'] == 'SUCCESS')
+            reset = choice('reset', [True, False])
+            r, errs = ex.operator('rerun_workflow', t['id'], reset=reset)
+            info = {'late': late, 'reset': reset,
+                    'first_accepted': first_accepted,
+                    'errors': [repr(e)[:200] for e in errs]}
+            check(not errs, 'rerun-refused',
+                  dict(info, signature=sig + ':rerun-refused'))
+            n_before = {}
+            for a in w.actions(t['id']):
+                i = a['runtime_context']['index']
+                n_before[i] = n_before.get(i, 0) + 1
+
+            def inv():
+                tt = w.task('t', wid)
+                acts_ = w.actions(tt['id'])
+                running = [a for a in acts_ if a['state'] == 'RUNNING'
+                           and (a['runtime_context'] or {}).get('index')
+                           is not None]
+                live = {}
+                for a in acts_:
+                    i = (a['runtime_context'] or {}).get('index')
+                    if a['accepted'] or a['state'] == 'RUNNING':
+                        live[i] = live.get(i, 0) + 1
+                check(all(v == 1 for v in live.values()),
+                      'item-running-or-accepted-twice',
+                      dict(info, signature=sig + ':item-twice', live=live,
+                           trace=ex.trace[-15:]))
+                if tt['state'] in ('SUCCESS', 'ERROR') and \
+                        late == 'before-rerun':
+                    check(not running, 'task-completed-with-running-items',
+                          dict(info, signature=sig + ':early-complete',
+                               trace=ex.trace[-15:]))
+            real_deliver = ex.deliver
+
+            def deliver(ev, *a, **k):
+                real_deliver(ev, *a, **k)
+                inv()
+            ex.deliver = deliver
+            drain(False)
+            reach('rerun-done')
+            t = w.task('t', wid)
+            wf = w.wf_ex(wid)
+            acts_ = w.actions(t['id'])
+            fi = dict(info, trace=ex.trace[-30:], task=t['state'],
+                      wf=wf['state'],
+                      ctx=(t['runtime_context'] or {}).get('with_items'))
+            check(t['state'] == 'SUCCESS' and wf['state'] == 'SUCCESS' and
+                  w.task('after', wid) is not None,
+                  'with-items-final-state-wrong',
+                  dict(fi, signature=sig + ':final-state'))
+            acc = sorted(a['runtime_context']['index'] for a in acts_
+                         if a['accepted'])
+            check(acc == [0, 1, 2],
+                  'not-exactly-one-accepted-result-per-item',
+                  dict(fi, signature=sig + ':per-item', accepted=acc))
+            check((t['published'] or {}).get('res') == ['r0', 'r1', 'r2'],
+                  'results-not-in-item-order',
+                  dict(fi, signature=sig + ':order',
+                       got=(t['published'] or {}).get('res')))
+            if not reset and late == 'before-rerun':
+                # a partial rerun leaves the items that succeeded alone
+                for i in first_accepted:
+                    n = len([a for a in acts_
+                             if a['runtime_context']['index'] == i])
+                    check(n == n_before.get(i, 0),
+                          'partial-rerun-re-executed-a-successful-item',
+                          dict(fi, signature=sig + ':partial', item=i))
+    return case
+
+
 RETRY_WF = """
 version: '2.0'
 wf:
@@ -350,7 +505,10 @@ def _c07_retry_case(conc, nmax, preemptions):
                      'reset on / off and new outcomes (count <= 2 without '
                      'concurrency and with concurrency 1, <= 4 with '
                      'concurrency 2); with-items + retry (count 1) with '
-                     '<= 3 items, per-iteration outcomes symbolic',
+                     '<= 3 items, per-iteration outcomes symbolic; a task '
+                     '(3 items, concurrency 2) ended by a cancelled item or '
+                     'by its timeout with items in flight, their results '
+                     'arriving before or after the rerun, reset on / off',
             'thorough': 'item count 0..4, <= 2 out-of-order deliveries, '
                         'rerun with count <= 3'},
     stubs=['minidb', 'QueueRPC', 'FakeScheduler', 'FakeExecutor',
@@ -379,6 +537,9 @@ def c07_e(ctx):
                                               rerun=True),
                    needed=['first-run-failed', 'rerun-done'],
                    replay=_strong_partial_rerun)
+    for kind in ('cancel-item', 'timeout'):
+        yield Case('abnormal/' + kind, _c07_abnormal_rerun_case(kind),
+                   needed=['ended-with-items-in-flight', 'rerun-done'])
     for conc in ('none', 'literal1', 'literal2'):
         yield Case(conc + '/retry', _c07_retry_case(conc, ctx.pick(3, 4),
                                                     ctx.pick(0, 1)),
